@@ -260,6 +260,25 @@ def c16_path(it, stage, nent):
     sel_file = [it.deref(x) for x in r2.f[0].items]
     if sorted(map(sval, sel_file)) != sorted(expected):
         raise Violation('C16', '--dev-file --only-if-keyboard selects a different set than real, non-virtual, non-excluded keyboards', {'selected': list(map(sval, sel_file)), 'expected': expected})
+    # --dev-file without --only-if-keyboard: every listed non-virtual device that no pattern excludes
+    expected_any = []
+    for e in ordered:
+        if e.sysfs is None or e.sysfs.startswith('/devices/virtual/input/'):
+            continue
+        a1, a2 = run_extractors(it, prog, assemble([e]))
+        if len(a2) != 1:
+            continue
+        if any(glob_match(p, e.name or '') for p in excludes):
+            continue
+        if DEVNODE.get(e.sysfs) is not None:
+            expected_any.append(DEVNODE[e.sysfs])
+    r3 = it.run(f_filter, [Ref(Cell(devs)), False, Ref(Cell(exv)), False])
+    if r3.variant != 'Ok':
+        raise Violation('C16', 'filter_devices_verbose failed', {})
+    sel_any = [it.deref(x) for x in r3.f[0].items]
+    if sorted(map(sval, sel_any)) != sorted(expected_any):
+        raise Violation('C16', '--dev-file (without --only-if-keyboard) selects a device that an --exclude pattern or the virtual tree rules out, or drops one that nothing rules out',
+                        {'selected': list(map(sval, sel_any)), 'expected': expected_any})
     return len(expected)
 
 
@@ -374,6 +393,19 @@ def native_judge(native, case):
         return '--all-keyboards selects %r, expected %r' % (full['selected_all'], expected)
     if sorted(full['selected_dev_file']) != sorted(expected):
         return '--dev-file --only-if-keyboard selects %r, expected %r' % (full['selected_dev_file'], expected)
+    expected_any = []
+    for d in case['entries']:
+        if not d['sysfs'] or d['sysfs'].startswith('/devices/virtual/input/'):
+            continue
+        ra = native.ask({'kind': 'kbd_select', 'text': concrete_text({'entries': [d]}), 'excludes': []})['ok']
+        if len(ra['input_devices']) != 1:
+            continue
+        if any(glob_match(p, d['name'] or '') for p in case['excludes']):
+            continue
+        if sysmap.get(d['sysfs']):
+            expected_any.append(sysmap[d['sysfs']])
+    if 'selected_dev_file_any' in full and sorted(full['selected_dev_file_any']) != sorted(expected_any):
+        return '--dev-file without --only-if-keyboard selects %r, expected %r' % (full['selected_dev_file_any'], expected_any)
     return None
 
 
